@@ -142,6 +142,12 @@ func buildC07(tier string, seed int64) *Family {
 	for _, x := range ex {
 		insts = append(insts, valueInst(x, cfg))
 	}
+	// a comparison inside a predicate stops at the first matching child and leaves the others
+	// unvisited when the next candidate is tested: 5 slots, elements only
+	bcfg := docCfg{N: 5, A: 0, Names: "a,b", Pool: ",1,2"}
+	for _, x := range []string{"//*[* > 1]", "//*[a = 2]", "//*[* != 1]", "//*[2 <= *]", "count(//*[* = '2'])", "//*[* = *]", "//*[a >= 1 and b]", "//*[not(* = 1)]"} {
+		insts = append(insts, valueInst(x, bcfg))
+	}
 	// elements with two attributes: an existential comparison over @* stops at the first
 	// match and leaves the attribute cursor half-way for the next candidate
 	acfg := docCfg{N: 3, A: 2, Names: "a,b", Pool: ",1,2"}
